@@ -142,6 +142,20 @@ SetThenRemove(m) == \E i, j \in DOMAIN m : i < j /\ m[i].k = "set" /\ m[j].k = "
 (* Applying a command's result *)
 
 Pairs(m) == {<<p, m[p]>> : p \in DOMAIN m}
+
+\* a canonical text for a state (ToString of a function or set is not canonical): vectors over fixed enumerations.  refs, entries and
+\* bad are left out: they are determined by the rest (RefsExact, EntriesExact) in the instances behaviours are generated from.
+PossiblePaths == {<<s>> : s \in Sessions} \cup UNION {UNION {Prefixes(w, q) : q \in WPaths[w]} : w \in Writers}
+PathSeq == SeqOf(PossiblePaths)
+SessSeq == SeqOf(Sessions)
+SpellSeq == SeqOf(Spellings)
+Vec(f) == [i \in DOMAIN PathSeq |-> IF PathSeq[i] \in DOMAIN f THEN f[PathSeq[i]] ELSE Absent]
+Key(t, cn, S, m, un, mx) ==
+    ToString(<<Vec(t), [i \in DOMAIN SessSeq |-> LET s == SessSeq[i] IN
+                          <<IF s \in cn THEN 1 ELSE 0, mx[s],
+                            [j \in DOMAIN SpellSeq |-> IF SpellSeq[j] \in DOMAIN S[s] THEN S[s][SpellSeq[j]].f ELSE Absent],
+                            IF s \in Subscribers THEN Vec(m[s]) ELSE <<>>,
+                            IF s \in Subscribers THEN [k \in DOMAIN PathSeq |-> IF PathSeq[k] \in un[s] THEN 1 ELSE 0] ELSE <<>> >>]>>)
 Finish(cmd, z, E2, S2, cn, mx2, taint, pruneFor, abstree) ==
     LET out == Out(z)
         ups == [s \in Sessions |-> Upds(out[s])]
@@ -158,7 +172,7 @@ Finish(cmd, z, E2, S2, cn, mx2, taint, pruneFor, abstree) ==
                                   con |-> cn,
                                   nmsg |-> [s \in Subscribers |-> Len(out[s])]]
                   ELSE last
-       /\ (RECORD => PrintT("@@" \o ToJson([pre |-> ToString(view), post |-> ToString(view'), step |-> last'])))
+       /\ (RECORD => PrintT("@@" \o ToJson([pre |-> Key(tree, conn, subs, mirror, unclaimed, maxItems), post |-> Key(z.tree, cn, S2, m2, un2, mx2), step |-> last'])))
 
 NoTaint == [s \in Sessions |-> {}]
 None == "-"
